@@ -35,6 +35,7 @@ def make_spec(seed, index, **opts):
     rng = random.Random("spec-%d-%d" % (seed, index))
     opts.setdefault("wu_bias", index % 2 == 0)
     opts.setdefault("allow_empty", index % 5 == 3)
+    opts.setdefault("shuffle_files", index % 3 == 2)
     sg = SpecGen(rng, **opts)
     sp = sg.generate()
     return sp, sg.features
@@ -96,3 +97,71 @@ def record_features(rec, feats):
 def xml_of(tree_or_spec):
     files = tree_or_spec.files if hasattr(tree_or_spec, "files") and isinstance(tree_or_spec.files, dict) and all(isinstance(v, str) for v in tree_or_spec.files.values()) else S.render(tree_or_spec)
     return files
+
+
+def refs_into_client_server(spec):
+    """Types declared outside net/client and net/server that refer to a type declared inside them
+    (the shape behind the known C18/C20 finding)."""
+    home = {n: p for n, (d, p) in spec.types().items()}
+    out = []
+    for path, f in spec.files.items():
+        if path in ("net/client", "net/server"):
+            continue
+        for d in list(f.structs) + list(f.packets):
+            def visit(ins, body, i, depth, d=d, path=path):
+                if ins.kind in ("field", "array") and ins.type:
+                    base = ins.type.split(":")[0]
+                    if home.get(base) in ("net/client", "net/server"):
+                        out.append((path, getattr(d, "name", None), base))
+            S.walk(d.body, visit)
+    return out
+
+
+def directory_cycle(spec):
+    """Directory-level import dependencies of the generated package: a *reference edge* A -> B for every
+    type reference from a declaration in directory A to one in directory B, and a *parent edge*
+    A -> parent(A) (importing a sub-package runs its parent's __init__, which star-imports all of the
+    parent's modules).  A module of directory A can be re-entered while it is still executing when execution leaves A
+    through a reference and comes back through another reference into A.  Returns such a pair, or None."""
+    home = {n: p for n, (d, p) in spec.types().items()}
+    refs = set()
+    succ = {p: set() for p in spec.files}
+    for path, f in spec.files.items():
+        if path:
+            succ[path].add(path.rsplit("/", 1)[0] if "/" in path else "")
+        for d in list(f.structs) + list(f.packets):
+            def visit(ins, body, i, depth, path=path):
+                if ins.kind in ("field", "array") and ins.type:
+                    b = home.get(ins.type.split(":")[0])
+                    if b is not None and b != path:
+                        refs.add((path, b))
+                        succ[path].add(b)
+            S.walk(d.body, visit)
+
+    def reach(a):
+        seen, todo = {a}, [a]
+        while todo:
+            u = todo.pop()
+            for v in succ.get(u, ()):
+                if v not in seen:
+                    seen.add(v)
+                    todo.append(v)
+        return seen
+    R = {p: reach(p) for p in succ}
+    # execution leaves directory a through a reference into b and comes back into a through another
+    # reference (c, a) issued from something reachable from b
+    for (a, b) in sorted(refs):
+        for (c, d) in sorted(refs):
+            if d == a and (a, b) != (c, d) and c in R[b]:
+                return [(a, b), (c, d)]
+    return None
+
+
+def import_hazards(spec):
+    """Spec shapes behind the two known import-layout findings (C18 / C20)."""
+    out = []
+    if refs_into_client_server(spec):
+        out.append("refs-into-net-client-or-server-from-earlier-package")
+    if directory_cycle(spec):
+        out.append("directory-level-import-cycle")
+    return out
